@@ -20,10 +20,10 @@ def _replay_one(rec):
     bad = []
     kmer = impl.dna(rec["kmer"])
     r = impl.call(dsw.obtain_latters, v, k)
-    if r["out"] != "ok" or [int(x) for x in r["value"]] != rec["succ"]:
+    if r["out"] != "ok" or [impl.index_of(x) for x in r["value"]] != rec["succ"]:
         bad.append(("successors", rec["succ"], impl.jsonable(r.get("value", r))))
     r = impl.call(dsw.obtain_formers, v, k)
-    if r["out"] != "ok" or [int(x) for x in r["value"]] != rec["pred"]:
+    if r["out"] != "ok" or [impl.index_of(x) for x in r["value"]] != rec["pred"]:
         bad.append(("predecessors", rec["pred"], impl.jsonable(r.get("value", r))))
     for arg in (v, str(v)):
         r = impl.call(dsw.number_to_dna, arg, k)
@@ -158,14 +158,14 @@ def run(ctx):
     for k, v in todo:
         v = rng.randrange(4 ** k) if v is None else v
         c = {"kind": "arith", "k": k, "v": v}
-        c["latters"] = [int(x) for x in dsw.obtain_latters(v, k)]
-        c["formers"] = [int(x) for x in dsw.obtain_formers(v, k)]
+        c["latters"] = [impl.index_of(x) for x in dsw.obtain_latters(v, k)]
+        c["formers"] = [impl.index_of(x) for x in dsw.obtain_formers(v, k)]
         s1, s2 = dsw.number_to_dna(v, k), dsw.number_to_dna(str(v), k)
         c["kmer_int"], c["kmer_str"] = impl.undna(s1), impl.undna(s2)
         kmer = "".join(impl.NT[(v // 4 ** (k - 1 - i)) % 4] for i in range(k))  # transport of v as a string only
         c["back_int"] = int(dsw.dna_to_number(s1, is_string=False))
         c["back_str"] = int(dsw.dna_to_number(s1, is_string=True))
-        c["row"] = c["latters"] if k > 6 else [int(x) for x in _CA(k)[v]]
+        c["row"] = c["latters"] if k > 6 else [impl.index_of(x) for x in _CA(k)[v]]
         cases.append(c)
     cases += _accessors(ctx.seed, 40 if ctx.quick else 400)
     path = os.path.join(ctx.workdir, "c13_trace.json")
